@@ -15,8 +15,8 @@ from mc.lib.classify_spaces import exc_site
 ID = 'C15'
 LEVEL = 'exploration'
 RULE = (
-    'Finite lattice: every subset of 2..5 (thorough: 2..7) knots of a '
-    '7-point level menu x 5 conductivity patterns spanning 1e-3..1e4 '
+    'Finite lattice: every subset of 2..7 knots of a '
+    '7-point (thorough: 9-point) level menu x 6 conductivity patterns spanning 1e-3..1e4 '
     '(rising, flat, falling, zig-zag, steep, one flat segment below others) '
     'x minimum transmissivity in {1e-3, 7.442, 1e3, integer 7}; levels: far below, just below, first knot, two '
     'points inside each segment, each knot, last knot; each evaluated as a '
@@ -32,6 +32,8 @@ ASSUMPTIONS = [
     'across the kinks of log-linear conductivity)',
 ]
 LEVELS = [-291.7, -183.1, -15.74, 0.0, 38.78, 168.3, 1000.0]
+LEVELS_THOROUGH = [-1291.725, -291.7, -183.1, -15.74, 0.0, 10.65, 38.78,
+                   168.3, 1000.0]
 PATTERNS = {
     'rising': lambda i, n: 10.0 ** (-3 + 7.0 * i / max(n - 1, 1)),
     'flat': lambda i, n: 1.002,
@@ -53,18 +55,20 @@ def decoy():
 def BOUND(tier):
     return ('%s knot subsets x 6 conductivity patterns x 4 minimum '
             'transmissivities x 3K+1 levels x {scalar, list, ndarray}'
-            % ('2..5-element' if tier == 'quick' else '2..7-element'))
+            % ('2..7-element subsets of a 7-level menu:' if tier == 'quick'
+               else '2..7-element subsets of a 9-level menu:'))
 
 
 def spaces(tier):
-    sizes = (2, 3, 4, 5) if tier == 'quick' else (2, 3, 4, 5, 6, 7)
-    sets = [c for k in sizes for c in itertools.combinations(range(7), k)]
+    menu = LEVELS if tier == 'quick' else LEVELS_THOROUGH
+    sets = [c for k in (2, 3, 4, 5, 6, 7)
+            for c in itertools.combinations(range(len(menu)), k)]
     index = [(si, p, t) for si in range(len(sets)) for p in PATTERNS
              for t in range(len(TMINS))]
 
     def decode(i):
         si, p, t = index[i]
-        return {'knots': [LEVELS[k] for k in sets[si]], 'pattern': p,
+        return {'knots': [menu[k] for k in sets[si]], 'pattern': p,
                 't_min': TMINS[t]}
     dumped = [(si, p) for si in range(0, len(sets), 5) for p in PATTERNS]
 
@@ -73,7 +77,7 @@ def spaces(tier):
             return {'knots': [0.0, 1.0], 'pattern': 'rising',
                     't_min': 0.5, 'many_knots': True, 'dump': True}
         si, p = dumped[i]
-        return {'knots': [LEVELS[k] for k in sets[si]], 'pattern': p,
+        return {'knots': [menu[k] for k in sets[si]], 'pattern': p,
                 't_min': 7.442, 'dump': True}
     return [Space('SplineTransmissivity/knot subsets x patterns x T_min',
                   len(index), decode, 'each case evaluates all levels'),
